@@ -2465,14 +2465,21 @@ impl<'a> Model<'a> {
                     worksheet.set_cell_with_number(row, column, v, new_style_index)?;
                     return Ok(());
                 }
-                // We try to parse as boolean
-                if let Ok(v) = value.to_lowercase().parse::<bool>() {
+                // We try to parse as boolean (in the active language, like they are displayed, or in English)
+                let upper = value.to_uppercase();
+                let boolean = if upper == self.language.booleans.r#true {
+                    Some(true)
+                } else if upper == self.language.booleans.r#false {
+                    Some(false)
+                } else {
+                    value.to_lowercase().parse::<bool>().ok()
+                };
+                if let Some(v) = boolean {
                     let worksheet = self.workbook.worksheet_mut(sheet)?;
                     worksheet.set_cell_with_boolean(row, column, v, new_style_index)?;
                     return Ok(());
                 }
                 // Check is it is error value
-                let upper = value.to_uppercase();
                 let worksheet = self.workbook.worksheet_mut(sheet)?;
                 match get_error_by_name(&upper, self.language) {
                     Some(error) => {
